@@ -52,6 +52,8 @@ def solve(
             )
         if x.size > 0 and np.any(x < 0):
             raise ValueError(f"Values passed for axis names as constraints must not be negative, but found value {v} for axis {k}")
+        if x.size > 0 and np.any(x > np.iinfo("int64").max):
+            raise ValueError(f"Values passed for axis names as constraints must be less than 2**63, but found value {v} for axis {k}")
 
     # Remove unused constraints
     used_axisnames = {expr.name for expr in list(exprs_in) + list(exprs_out) for expr in expr.nodes() if isinstance(expr, stage1.Axis)}
